@@ -32,6 +32,12 @@ claim("C19",
  "static analysis: SSA error-result use analysis, dominator-guard recognition, CFG must-pass-through (flush pairing), sibling call-set comparison, static call-graph reachability",
  "DESIGN.md §3 C19")
 
+claim("C12",
+ "Static protocol analysis of the in-place write path: a census of every file-system-mutating call in the module against a closed role table (an unlisted function/callee pair is a violation); who-may-call and dominance rules — the target-writing steps are reachable only through FinishWriteInPlace on its evaluatedSuccessfully branch, which is invoked only from the deferred closures of the two RunE functions, under cmdError == nil, with completedSuccessfully = (evaluation error == nil); no truncating open of the target (one known finding: the cross-device fallback); must-pass-through of Chmod(temp, Stat(target).Mode()) before every success return of CreateTempFile; the printer's flush error is returned. Necessary conditions only: crash points and injected faults are not explored (that needs a different technique).",
+ TB + " The role table in rules_c12.go is the reference for what each FS call is for.",
+ "static analysis: call census against a role table, who-may-call over static callers, dominator-guard recognition, CFG must-pass-through",
+ "DESIGN.md §3 C12")
+
 na = {
  "C01": "whole-property quantifies over runtime values of all programs x documents; no structural clause with detection value beyond what C09/C11 already check (DESIGN.md §3 C01)",
 }
